@@ -46,7 +46,7 @@ add("C03", "model_checking",
 add("C04", "model_checking",
     "Bounded: 9 right-context definitions (multi-character literal, a character vs a range covering it inside the context, `$`, negative, nullable, context on a non-first rule, "
     "shorter match wins when the longer candidate's context fails); the reference validates a candidate iff some prefix of the rest (end-of-input visible) is in L(ctx) and never consumes it.",
-    BOUNDED_NOTE + "No function of right_ctx.rs / codegen.rs admits a semantic contract (they build TokenStreams), hence no proved part.",
+    BOUNDED_NOTE + "Proved part (Verus, real right_ctx.rs): the index a rule stores for its right context is the position of the automaton built from that context. codegen.rs builds TokenStreams and has no contract.",
     "bounded step-contract harnesses (Kani/CBMC) on generated lexers with right contexts", "5 C04, 11.4")
 add("C05", "model_checking",
     "Proved: backtrack clears the done flag exactly on a rewind; next() never drops a character; (Verus, real dfa.rs) has_no_transitions counts the `$` transition and set_end_of_input_transition stores exactly the given target "
